@@ -19,7 +19,7 @@ RULE = (
 )
 ASSUMPTIONS = ["with cbca only the scalar-nesting relation is claimed (NaN-ed neighbours legitimately change aggregated sums)"]
 GATES = {
-    "nested_scalar_pairs": 10, "nested_with_cbca": 2, "grid_vs_hull": 5, "constant_grid_vs_scalar": 3, "point_inner_interval": 1,
+    "nested_scalar_pairs": 10, "grid_of_equal_width_intervals": 1, "nested_with_cbca": 2, "grid_vs_hull": 5, "constant_grid_vs_scalar": 3, "point_inner_interval": 1,
     "end_to_end_pipelines": 10, "costs_compared": 50000, "pixels_contained": 5000,
 }
 INVALID = 0b1111000011
@@ -131,7 +131,8 @@ def run_case(case, ctx):
             gmin, gmax = gen.grids(rng, rows, cols, A, B, "constant")
             ctx.gate("constant_grid_vs_scalar")
         else:
-            gmin, gmax = gen.grids(rng, rows, cols, A, B, ["random", "points", "rowwise"][int(rng.integers(0, 3))])
+            gmin, gmax = gen.grids(rng, rows, cols, A, B, ["random", "points", "rowwise", "band", "pointvar"][int(rng.integers(0, 5))])
+            ctx.gate("grid_of_equal_width_intervals", int(bool((gmax - gmin == (gmax - gmin).flat[0]).all()) and bool((gmin != gmin.flat[0]).any())))
             ctx.gate("grid_vs_hull")
         g = cost_volume(pipe, *ds((gmin, gmax)), after_kind)
         gc, gd = g["cost_volume"].data, g.coords["disp"].data
@@ -171,7 +172,7 @@ def _e2e(case, ctx):
     if lo == hi == 0:
         hi = 2
     if use_grid:
-        disp = gen.grids(rng, rows, cols, lo, hi, ["random", "points"][int(rng.integers(0, 2))])
+        disp = gen.grids(rng, rows, cols, lo, hi, ["random", "points", "band", "pointvar"][int(rng.integers(0, 4))])
         rdisp = gen.grids(rng, rows, cols, -hi, -lo, "random")
     else:
         disp, rdisp = (lo, hi), None
